@@ -256,6 +256,10 @@ def check(seed, p, ops=None):
     for ln in out:
         if ln.startswith('illegal '):
             illegal.append((len(answers), ln[8:]))
+        elif ln.startswith('unnamed '):
+            # a message about an item / effect the configuration does not hold: outside `StepFin`, where the table twin
+            # of the model is not proved equal to the model
+            illegal.append((len(answers), 'StepFin ' + ln[8:]))
         elif ln == '.':
             if in_b:
                 banswers.append(curb)
